@@ -34,6 +34,13 @@ def load_known():
         return json.load(f).get('findings', [])
 
 
+def repo_root() -> str:
+    """root of the checkout peptacular is imported from (src/peptacular/__init__.py -> ../..)"""
+    import importlib.util
+    spec = importlib.util.find_spec('peptacular')
+    return os.path.dirname(os.path.dirname(os.path.dirname(spec.origin)))
+
+
 def check_module(prop: str):
     return importlib.import_module(f'vf.checks.{prop.lower()}')
 
@@ -132,6 +139,18 @@ def main(argv=None) -> int:
                               '--shard', str(k), '--nshards', str(nshards), '--out', out],
                              cwd=ROOT, env=env, stdout=log, stderr=subprocess.STDOUT)
         procs.append((k, p, out, log))
+    suite = None
+    if args.tier == 'thorough' and getattr(mod, 'SUITE_WORKLOAD', False):
+        # the repository's own suite as one more workload, under the generic monitors of this property
+        out = os.path.join(tmpdir, 'suite.json')
+        log = open(os.path.join(tmpdir, 'suite.log'), 'w')
+        env2 = dict(env)
+        env2['VF_PLUGIN_PROP'] = prop
+        env2['VF_PLUGIN_OUT'] = out
+        p = subprocess.Popen([sys.executable, '-m', 'pytest', '-q', '-p', 'no:cacheprovider', '-p', 'vf.pytest_plugin',
+                              '--timeout=1800', 'tests'], cwd=repo_root(), env=env2, stdout=log,
+                             stderr=subprocess.STDOUT)
+        suite = (p, out, log)
     results, failures = [], []
     deadline = t0 + timeout
     for k, p, out, log in procs:
@@ -150,10 +169,29 @@ def main(argv=None) -> int:
             continue
         with open(out) as f:
             results.append(json.load(f))
+    suite_note = None
+    if suite is not None:
+        p, out, log = suite
+        try:
+            rc = p.wait(timeout=max(1.0, deadline - time.time()))
+            log.close()
+            tail = open(os.path.join(tmpdir, 'suite.log')).read().strip().split('\n')[-1]
+            suite_note = f'repository suite under monitors: exit {rc}: {tail}'
+            if os.path.exists(out):
+                with open(out) as f:
+                    results.append(json.load(f))
+            if rc != 0:
+                failures.append('repository suite under monitors did not pass: ' + tail)
+        except subprocess.TimeoutExpired:
+            p.kill()
+            p.wait()
+            failures.append('repository suite under monitors exceeded the watchdog')
     import shutil
     shutil.rmtree(tmpdir, ignore_errors=True)
 
     m = merge(results)
+    if suite_note:
+        m['notes'][suite_note] += 1
     known = [k for k in load_known() if k['property'] == prop]
     open_ids = {k['id'] for k in known if k.get('status') == 'open'}
 
